@@ -1222,8 +1222,9 @@ func (r *Register) DebugString() string {
 	return "R[" + strconv.Itoa(r.Idx) + "," + r.Literal() + "]"
 }
 
+// A register stands for a variable of the program: printed code (e.g. quote(i)) shows the variable.
 func (r *Register) PrettyPrint(out *ast.PrintState) *ast.PrintState {
-	out.Print(r.DebugString())
+	out.Print(r.Literal())
 	return out
 }
 
